@@ -126,8 +126,55 @@ let lit_main () =
     | _ -> failwith ("bad line: " ^ line)
   done with End_of_file -> ())
 
+(* ---------------- layout / declspec ---------------- *)
+(* stdin: "S|U <packed 0|1> <align0> <size align bf named>*"  (bf = -1 for an ordinary member)
+   stdout: "<size> <align> <off:bit>*" *)
+let layout_main () =
+  (try while true do
+    let line = input_line stdin in
+    match String.split_on_char ' ' (String.trim line) with
+    | kind :: packed :: align0 :: rest ->
+      let rec mems = function
+        | sz :: al :: bf :: nm :: r ->
+          { m_size = n_of_int (int_of_string sz); m_align = n_of_int (int_of_string al);
+            m_bf = (if bf = "-1" then None else Some (n_of_int (int_of_string bf))); m_named = (nm = "1") } :: mems r
+        | [] -> [] | _ -> failwith "bad member list" in
+      let ms = mems rest in
+      let l = if kind = "S" then struct_layout (packed = "1") (n_of_int (int_of_string align0)) ms
+              else union_layout (n_of_int (int_of_string align0)) ms in
+      let bad = kind = "S" && not (no_bad (packed = "1") { ls_bits = N0; ls_align = n_of_int (int_of_string align0) } ms) in
+      Printf.printf "%d %d %d%s\n" (int_of_n l.l_size) (int_of_n l.l_align) (if bad then 1 else 0)
+        (String.concat "" (List.map (fun p -> Printf.sprintf " %d:%d" (int_of_n p.p_off) (int_of_n p.p_bit)) l.l_places));
+      flush stdout
+    | _ -> failwith ("bad line: " ^ line)
+  done with End_of_file -> ())
+
+let kw_name = function KVoid -> "void" | KBool -> "_Bool" | KChar -> "char" | KShort -> "short" | KInt -> "int"
+  | KLong -> "long" | KFloat -> "float" | KDouble -> "double" | KSigned -> "signed" | KUnsigned -> "unsigned"
+let bty_name = function BVoid -> "void" | BBool -> "bool" | BChar -> "char" | BUChar -> "uchar" | BShort -> "short"
+  | BUShort -> "ushort" | BInt -> "int" | BUInt -> "uint" | BLong -> "long" | BULong -> "ulong"
+  | BFloat -> "float" | BDouble -> "double" | BLDouble -> "ldouble"
+(* the 6.7.2p2 multisets of the Coq spec with their type, and what the regenerated model answers *)
+let declspec_main () =
+  List.iter (fun (m, t) ->
+    Printf.printf "%s = %s\n" (String.concat " " (List.map kw_name m)) (bty_name t)) c11_type_specifiers
+(* stdin: keyword sequences; stdout: model verdict *)
+let declspec_run_main () =
+  let kw_of = function "void" -> KVoid | "_Bool" -> KBool | "char" -> KChar | "short" -> KShort | "int" -> KInt
+    | "long" -> KLong | "float" -> KFloat | "double" -> KDouble | "signed" -> KSigned | "unsigned" -> KUnsigned
+    | s -> failwith ("bad kw " ^ s) in
+  (try while true do
+    let line = String.trim (input_line stdin) in
+    let ks = List.filter (fun s -> s <> "") (String.split_on_char ' ' line) in
+    (match declspec kw_op ds_table (List.map (fun k -> TKw (kw_of k)) ks) with
+     | Some t -> print_endline (bty_name t) | None -> print_endline "invalid")
+  done with End_of_file -> ())
+
 let () =
   match Array.to_list Sys.argv with
+  | [_; "layout"] -> layout_main ()
+  | [_; "declspec-spec"] -> declspec_main ()
+  | [_; "declspec-run"] -> declspec_run_main ()
   | [_; "hashmap"] -> hashmap_main ()
   | [_; "utf"; lo; hi] -> utf_main (int_of_string lo) (int_of_string hi)
   | [_; "ident"; lo; hi] -> ident_main (int_of_string lo) (int_of_string hi)
